@@ -26,6 +26,9 @@ CLAIMS = {
     "C07": ("proof", "return-value table + edge-dominance for clock_at / get_scope; provenance of the clock argument in every heads-taking ReadDoc method (4 implementations, enumerated from the trait)",
             "Proves that the unscoped fast path (clock None) is taken only when heads_are_current(heads), that every ReadDoc method with a heads parameter in Automerge, AutoCommit, Transaction and OwnedTransaction passes its worker a clock derived from that parameter and never a literal None, and that AutoCommit::get_scope uses the fast path only while no transaction is open.",
             "Decides that historical reads are routed through a clock computed from the requested heads; does not decide that clock-scoped queries compute the historical value (runtime visibility).", "DESIGN.md §3 C07"),
+    "C39": ("proof", "inventory of unchecked str conversions over MIR (calls + transmutes), call-graph closure of hexane's validating load path, who-may-construct for trusting decoders, and must-validate-before-trust dominance at every String-typed trusting-decoder site outside hexane",
+            "Proves the validate-before-trust discipline that makes the single from_utf8_unchecked sound: it is the only unchecked conversion in the four crates; the validating loaders never reach RleValue::unpack and decode with try_unpack; trusting RleDecoders are constructed only by a reviewed set of hexane functions; and every String-typed streaming decoder outside hexane is over a literal empty slice or dominated by a Column::load of the same bytes whose error exits.",
+            "Near-complete for the stated mechanism; not decided: value fidelity of decoded strings. The rule fired on the pinned tree (bundle message/key/mark-name columns decoded by the trusting decoder straight from wire bytes): repaired by fix: 796a9f3bc. Trusting decoders over wire bytes for non-string types are C15's subject.", "DESIGN.md §3 C39"),
 }
 
 NA_PLANNED = "rule designed in DESIGN.md §3 but its checker is not built in this revision, so nothing is claimed yet"
